@@ -152,7 +152,9 @@ def drop_step_of(spec, path):
 
 def apply_user_action(rng, kind, spec, ledger, files_now, snap, late_writes):
     """Returns (description, spec changed)."""
-    outs = sorted(p for p in files_now if p in ledger.written and p not in ledger.user)
+    # (an adopted path is a source of the specification from then on: rendering restores it, so
+    # it is no candidate for a further action on an "output")
+    outs = sorted(p for p in files_now if p in ledger.written and p not in ledger.user and p not in ledger.adopted)
     regular = [p for p in outs if p not in ledger.ever_volatile]
     vols = [p for p in outs if p in ledger.ever_volatile]
     if kind in ("overwrite_output", "overwrite_and_drop") and regular:
